@@ -124,6 +124,34 @@ def enumerate_injections(stride: int = 1, offset: int = 0):
                        "before": ctx[1], "after": ctx[2]}, cand
 
 
+PAIR_VARIANTS = ["space", "nl", "blank", "eol-comment", "own-line-comment", "block-inline"]
+
+
+def enumerate_adjacent_pairs():
+    """every template x every pair of ADJACENT gaps x 6x6 trivia variants; yields
+    (info, base, text) with info["injections"] as in random_injections"""
+    n = 0
+    for tname, t in TEMPLATES:
+        base = code_tokens(t)
+        if base is None:
+            continue
+        gs, _ = gaps_of(t)
+        for gi in range(len(gs) - 1):
+            ca, cb = context_of(t, gi), context_of(t, gi + 1)
+            for va in PAIR_VARIANTS:
+                for vb in PAIR_VARIANTS:
+                    n += 1
+                    ta = MENU_BY_ID[va][1].replace("{N}", str(n) + "a")
+                    tb = MENU_BY_ID[vb][1].replace("{N}", str(n) + "b")
+                    cand = inject(inject(t, gi + 1, tb), gi, ta)
+                    if code_tokens(cand) != base:
+                        continue
+                    yield {"template": tname, "injections": [
+                        {"gap": gi, "variant": va, "vclass": MENU_BY_ID[va][2], "trivia": ta, "parent": ca[0], "before": ca[1], "after": ca[2]},
+                        {"gap": gi + 1, "variant": vb, "vclass": MENU_BY_ID[vb][2], "trivia": tb, "parent": cb[0], "before": cb[1], "after": cb[2]},
+                    ]}, t, cand
+
+
 def random_program(rng: random.Random, depth: int) -> str:
     """nest templates: replace an identifier/integer leaf of a template by a parenthesised template"""
     name, t = rng.choice(TEMPLATES)
@@ -146,8 +174,11 @@ def random_program(rng: random.Random, depth: int) -> str:
 
 
 def random_injections(rng: random.Random, n: int, depth: int):
+    """yields (info, base_text, injected_text); info["injections"] refer to gaps of the BASE text"""
     for i in range(n):
         t = random_program(rng, rng.randint(0, depth))
+        if t.count("\n") > 150:
+            continue  # keep far below the line count at which py-tree-sitter 0.26 corrupts memory
         base = code_tokens(t)
         if base is None:
             continue
@@ -155,13 +186,14 @@ def random_injections(rng: random.Random, n: int, depth: int):
         k = rng.randint(1, 3)
         infos = []
         cand = t
-        ok = True
-        # inject from the last gap to the first so indices stay valid
+        # inject from the last gap to the first so that the indices (of the base) stay valid
         for gi in sorted(rng.sample(range(len(gs)), min(k, len(gs))), reverse=True):
             vid, vtext, vclass = rng.choice(MENU)
-            ctx = context_of(cand, gi)
-            cand = inject(cand, gi, vtext.replace("{N}", str(i * 10 + gi)))
-            infos.append({"gap": gi, "variant": vid, "vclass": vclass, "parent": ctx[0], "before": ctx[1], "after": ctx[2]})
+            ctx = context_of(t, gi)
+            trivia = vtext.replace("{N}", str(i * 10 + gi))
+            cand = inject(cand, gi, trivia)
+            infos.append({"gap": gi, "variant": vid, "vclass": vclass, "trivia": trivia,
+                          "parent": ctx[0], "before": ctx[1], "after": ctx[2]})
         if code_tokens(cand) != base:
             continue
-        yield {"template": "random", "injections": infos}, cand
+        yield {"template": "random", "injections": infos}, t, cand
